@@ -306,4 +306,24 @@ example : diffEnvFixed (some ⟨[1], gCyc, .ref 0⟩) ⟨[1], gCyc, .ref 0⟩ = 
 example : diffEnvFixed (some ⟨[0], gCyc, .ref 0⟩) ⟨[1], gCyc, .ref 0⟩ = .rerun "environment changed" := by
   simp [diffEnvFixed, equalDepth_gCyc]
 
+/-- D28 (regression witness): environments that differ only in a part `functionEnvKeys` does not list — the record
+carries an extra key `"zzz"`, or files the signature under `"signature"` — made the original reason computation slice
+an empty list with `[:-1]`: a Go panic that kills the build. The repaired one reports the generic reason. -/
+theorem C08_unknown_part_counterexample :
+    reasonForOld ["zzz"] = none ∧ reasonForOld ["signature"] = none ∧
+    reasonFor ["zzz"] = "environment changed" ∧ reasonFor ["signature", "zzz"] = "environment changed" := by
+  refine ⟨by decide +kernel, by decide +kernel, by decide +kernel, by decide +kernel⟩
+
+/-- the repaired reason is defined for every diff, and names the known parts in the order of `functionEnvKeys` -/
+theorem C08_reason_total (diffKeys : List String) :
+    (reasonForOld diffKeys).isSome = true → reasonForOld diffKeys = some (reasonFor diffKeys) := by
+  simp only [reasonForOld, reasonFor]
+  cases envKeys.filter (diffKeys.contains ·) with
+  | nil => simp [joinReasonOld]
+  | cons a r => simp [joinReasonOld]
+
+example : reasonFor ["code", "names"] = "names and code changed" := by decide +kernel
+example : reasonFor ["parameters", "global values", "constant values"] = "constant values, global values, and parameters changed" := by
+  decide +kernel
+
 end Dawn.Env
